@@ -512,7 +512,9 @@ def scalar_lattice_table(model):
     f = model.func(TYPES, "_GetCommonScalarType")
     a, b = [x.arg for x in f.args.args[:2]]
     classes = ["Float", "Integer", "UnsignedInteger"]
-    sub = {c: {c, "ScalarType", "PrimitiveType", "Type"} for c in classes}
+    # isinstance is folded over the class hierarchy as it is written (a scalar class made a subclass of another one answers
+    # True for its base as well)
+    sub = {c: {k.name for k in model.cls(TYPES, c).mro} | {c} for c in classes}
     table = {}
     for ca in classes:
         for cb in classes:
@@ -634,6 +636,33 @@ def check_new_variable_fresh(col, vm, rule):
         col.check(not notfresh, rule, f"{VM}::__Execute NEW_VARIABLE value",
                   f"the bound value is always {unparse(srcs[0])}", f"the bound value can be `{unparse(notfresh[0]) if notfresh else ''}`, not a fresh instance: a declaration executed again (loop body, "
                   "sibling block re-using the name) starts from the previous variable's value", VM, nv.case)
+    # ... and "fresh" goes all the way down: what __CreateInstance returns is built by the call itself (displays,
+    # comprehensions, constructor calls, recursive creation, a deep copy) - never an object kept on the VM or a *shallow* copy
+    # of one (the rows of a nested array would be shared by every variable of that type, in every activation)
+    ec = vm.ec
+    shared = []
+    nret = 0
+    for mname in ("__CreateInstance", "__CreatePrimitiveInstance"):
+        m = ec.own_method(mname)
+        if m is None:
+            continue
+        selfn = m.args.args[0].arg
+        for r in [x for x in ast.walk(m) if isinstance(x, ast.Return) and x.value is not None]:
+            nret += 1
+            v = r.value
+            vals = [v] + (find_assign(m, v.id) if isinstance(v, ast.Name) else [])
+            for x in vals:
+                d = dotted(x.func) if isinstance(x, ast.Call) else None
+                if d in ("copy.copy", "copy", "list.copy") or (isinstance(x, ast.Call) and last_attr(x) == "copy" and not x.args):
+                    shared.append((mname, x))
+                elif isinstance(x, (ast.Attribute, ast.Subscript)) and unparse(x).startswith(selfn + "."):
+                    shared.append((mname, x))
+                elif isinstance(x, ast.Call) and d in ("copy.deepcopy", "deepcopy") and False:
+                    pass
+    col.floor(rule, "returns of the VM's instance constructors", nret, 3)
+    col.check(not shared, rule, f"{VM}::__CreateInstance builds what it returns", "every returned value is constructed by the call (no kept object, no shallow copy)",
+              f"`{' '.join(unparse(shared[0][1]).split())[:60] if shared else ''}` in {shared[0][0] if shared else ''} hands out an object the VM keeps (or a shallow copy of it): variables of a nested "
+              "aggregate type share their inner lists across declarations, activations and invocations", VM, shared[0][1] if shared else nv.case)
 
 
 def run_R01_9(model, col, G, vm):
@@ -687,14 +716,29 @@ def run_R01_9(model, col, G, vm):
                     conv[P.syms[0]] = c.args[0]
     col.floor("R01.9", "integer literal productions", len(conv), 3)
     samples = {"0": 0, "7": 7, "10": 10, "123": 123, "010": 8, "0777": 511, "0x10": 16, "0X1f": 31, "0xFF": 255, "90": 90}
+    # signed spellings: where the lexer makes the sign part of one integer token, the value carries the sign
+    signed = {"-7": -7, "+7": 7, "-12": -12, "-0x10": -16, "-010": -8, "+0x1F": 31}
     wrong = []
-    for s, value in samples.items():
+    actions = {}
+    for P in G.productions:
+        if len(P.syms) == 1 and P.syms[0] in conv:
+            actions[P.syms[0]] = P.func
+    for s, value in list(samples.items()) + list(signed.items()):
         tok, n = lx.first_match(s)
         if tok not in conv or n != len(s):
-            wrong.append(f"`{s}` is tokenised as {tok} ({n} of {len(s)} characters)")
+            if s in samples:
+                wrong.append(f"`{s}` is tokenised as {tok} ({n} of {len(s)} characters)")
             continue
         try:
-            got = ev(conv[tok], {"p": [None, s]})
+            # locals the action binds before the conversion (`digits = p[1][2:]`) are folded along
+            env_ = {"p": [None, s]}
+            for st_ in actions[tok].body:
+                if isinstance(st_, ast.Assign) and len(st_.targets) == 1 and isinstance(st_.targets[0], ast.Name):
+                    try:
+                        env_[st_.targets[0].id] = ev(st_.value, env_)
+                    except CannotEval:
+                        pass
+            got = ev(conv[tok], env_)
         except (CannotEval, ValueError) as e:
             wrong.append(f"`{s}` ({tok}): {type(e).__name__} {e}")
             continue
@@ -715,6 +759,12 @@ def run(model, col, tier):
     run_R01_4(model, col, vm)
     run_R01_5(model, col, vm)
     run_R01_9(model, col, G, vm)
+    # a name means the variable of the scope it is used in: nothing in the type pass or in lowering remembers a resolution under
+    # a key that leaves the scope out (memo-key completeness, = R12.4)
+    from .. import memo as _memo01
+
+    for rel_ in ("nsl/passes/ComputeTypes.py", LOWER, "nsl/types.py"):
+        _memo01.check_file(model, col, "R01.8", rel_)
     # R01.6 grouping = the C08 rule set; R01.7 activation state = C03 R03.1/R03.2
     from ..report import Collector
 
